@@ -818,6 +818,13 @@ func runEpisode(ep *Episode, pool []*Op, refs []Ref, st *ConcStats, a *concArgs)
 		st.sigs[fmt.Sprintf("%016x", sigAcc)] = true
 	}
 	// R1 / R3 / R4: every outcome equals its solo reference
+	if ep.Idx%8 == 5 {
+		runtime.GC() // finalizers, if the library set any, before the results are looked at again
+		runtime.GC()
+		for i := 0; i < 20; i++ {
+			runtime.Gosched()
+		}
+	}
 	if zzsimrt.ChildOverrun() && viol == nil {
 		viol = &ViolationRec{T: "violation", Prop: "C15", CheckID: "conc-progress", Engine: "conc",
 			Msg: "a goroutine started by the library ran past its step budget"}
